@@ -36,9 +36,51 @@ def run(ctx):
     from .common import MultiAlias
     c01.r4(MultiAlias(ctx, {"C01.R4": "C15.R5"}))
     c08.r4(MultiAlias(ctx, {"C08.R4": "C15.R6"}))
+    ctx.rule("C15.R8", "K5", "the header list the environ is built from is exactly what parse_headers returned: nothing rewrites, adds or removes a field of Message.headers afterwards")
+    r8(ctx)
     ctx.rule("C15.R7", "K3", "(= C10.R2) the SCRIPT_NAME a worker reads from os.environ is the configured one: a reload undoes the old raw_env exports before the new configuration snapshots the environment")
     from .c10 import env_reset_before_reload
     env_reset_before_reload(ctx, "C15.R7")
+
+
+def r8(ctx):
+    repo = ctx.repo
+    MSGM = "gunicorn.http.message"
+    n = 0
+    MUT = ("append", "extend", "insert", "remove", "pop", "clear", "sort", "reverse", "__setitem__")
+    for f in repo.funcs():
+        if not f.module.name.startswith("gunicorn."):
+            continue
+        for x in walk_own(f.node):
+            tgt = None
+            if isinstance(x, ast.Assign):
+                for t in x.targets:
+                    if isinstance(t, ast.Attribute) and t.attr == "headers" and f.module.name == MSGM:
+                        tgt = ("assign", t, x.value)
+                    elif isinstance(t, ast.Subscript) and isinstance(t.value, ast.Attribute) and t.value.attr == "headers" and (f.module.name == MSGM or tail(t.value.value) in ("req", "request", "mesg")):
+                        tgt = ("item", t, x.value)
+            elif isinstance(x, ast.Call) and isinstance(x.func, ast.Attribute) and x.func.attr in MUT and isinstance(x.func.value, ast.Attribute) and x.func.value.attr == "headers" \
+                    and (f.module.name == MSGM or tail(x.func.value.value) in ("req", "request", "mesg")):
+                tgt = ("call", x, None)
+            elif isinstance(x, (ast.AugAssign, ast.Delete)):
+                ts = [x.target] if isinstance(x, ast.AugAssign) else x.targets
+                for t in ts:
+                    b = t.value if isinstance(t, ast.Subscript) else t
+                    if isinstance(b, ast.Attribute) and b.attr == "headers" and (f.module.name == MSGM or tail(b.value) in ("req", "request", "mesg")):
+                        tgt = ("aug", t, None)
+            if tgt is None:
+                continue
+            n += 1
+            kind, node, val = tgt
+            okk = False
+            if kind == "assign" and f.module.name == MSGM:
+                if f.name == "__init__" and isinstance(val, ast.List) and not val.elts:
+                    okk = True
+                elif isinstance(val, ast.Call) and isinstance(val.func, ast.Attribute) and val.func.attr == "parse_headers":
+                    okk = True
+            ctx.check("C15.R8", okk, key(f, "headers-writer|" + norm(node)[:40]), site(f, x),
+                      "the parsed header list is changed in %s (`%s`): an HTTP_* variable would no longer be what the client sent" % (f.short, norm(x)[:80]), "headers = parse_headers(..) only")
+    ctx.floor("C15.R8", "writers of Message.headers", n, 2)
 
 
 def _dict_literal(f):
